@@ -207,6 +207,6 @@ pub fn def() -> PropDef {
         level: "fault_enumeration",
         rule: "the case index enumerates the grid socket type (9) x transport {tcp v4, tcp v6, tcp localhost, ipc} x history prefix {bound only, bound + accepted peers, connected out, mid-traffic, receiver has parked once, handshake pending} x {close().await, drop} = 432 cells, first undisturbed, then repeatedly under drawn transport/schedule (and an injected unlink failure for some ipc/close cells); judged in the simulated network and file namespaces: listeners gone and fresh connects refused (at close() return, resp. at quiescence after drop), socket file removed, every peer connection closed by the socket, no library-spawned task alive; distinct = distinct (cell, plan, schedule, transport)",
         assumptions: &["TCP ports and IPC files are those of the simulator's namespaces, reached through the real transport/tcp.rs, transport/ipc.rs, lib.rs and task_handle.rs code; the kernel and the tokio-gated glue lines are not exercised", "'shortly afterwards' for drop = by the time the simulation is quiescent"],
-        strata: vec![Stratum { name: "lifecycle", quick: 432 * 80, thorough: 432 * 1200, exhaustive: (true, true), run: lifecycle, what: "432-cell grid of socket type x transport x history x close/drop" }],
+        strata: vec![Stratum { name: "lifecycle", quick: 432 * 80, thorough: (432 * 1200) * 20, exhaustive: (true, true), run: lifecycle, what: "432-cell grid of socket type x transport x history x close/drop" }],
     }
 }
